@@ -139,7 +139,7 @@ impl Prop for C01 {
         true
     }
     fn run(&self, ctx: &mut RunCtx) {
-        let n = ctx.share(ctx.tier.n(240_000, 6_000_000));
+        let n = ctx.share(ctx.tier.n(600_000, 8_000_000));
         ctx.run_generated("seq", n, case_strategy(8), check);
     }
     fn replay(&self, _stream: &str, case: &Value, st: &mut Stats) -> Check {
